@@ -357,19 +357,48 @@ def smooth_degree(ctx):
 
 # --------------------------------------------------------------------------- R01.6
 def connectivity(ctx):
+    from ..flow import Aliases, Taint
+
     ap = ctx.fn("Path.append", "R01.6")
-    src = ast.unparse(ap)
-    ctx.ob("R01.6", "Path.append[links start]", "self._validate_connection(index)" in src and "self._segments.append(value)" in src, "", ap.lineno,
-           "an appended segment must be linked to the previous end")
-    ok = any(isinstance(s, ast.If) and "isinstance(value, Close)" in ast.unparse(s.test) and "_validate_close" in ast.unparse(s) for s in ast.walk(ap))
+    val = ap.args.args[1].arg
+    grows = [c for c in ast.walk(ap) if isinstance(c, ast.Call) and isinstance(c.func, ast.Attribute) and c.func.attr == "append" and attr_chain(c.func.value) == ["self", "_segments"]
+             and c.args and isinstance(c.args[0], ast.Name) and c.args[0].id == val]
+    vcs = [c for c in ast.walk(ap) if isinstance(c, ast.Call) and attr_chain(c.func) == ["self", "_validate_connection"] and c.args]
+    # the index handed to the validator is the position of the last OLD segment: len(self._segments) - 1 taken before the append
+    idx_ok = False
+    for c in vcs:
+        t = Taint(ap, lambda n: isinstance(n, ast.Call) and call_name(n) == "len" and n.args and attr_chain(n.args[0]) == ["self", "_segments"], through_containers=False)
+        idx_ok = idx_ok or t.derived(c.args[0])
+    ctx.ob("R01.6", "Path.append[links start]", bool(grows) and bool(vcs) and idx_ok, "", ap.lineno, "an appended segment must be linked to the previous end")
+    ok = any(isinstance(x, ast.If) and isinstance(x.test, ast.Call) and call_name(x.test) == "isinstance" and len(x.test.args) == 2 and isinstance(x.test.args[1], ast.Name) and x.test.args[1].id == "Close"
+             and any(isinstance(c, ast.Call) and attr_chain(c.func) == ["self", "_validate_close"] for y in x.body for c in ast.walk(y)) for x in ast.walk(ap))
     ctx.ob("R01.6", "Path.append[links close]", ok, "", ap.lineno, "an appended close must be linked to the last move")
     vc = ctx.fn("Path._validate_connection", "R01.6")
-    asg = [ast.unparse(s) for s in ast.walk(vc) if isinstance(s, ast.Assign)]
-    ctx.ob("R01.6", "Path._validate_connection", any(a.replace(" ", "") == "second.start=Point(first.end)" for a in asg), "; ".join(asg), vc.lineno,
+    al = Aliases(vc)
+    idx = vc.args.args[1].arg
+    FIRST, SECOND = "self._segments[%s]" % idx, "self._segments[%s+1]" % idx
+    stores = []
+    for x in ast.walk(vc):
+        if isinstance(x, ast.Assign) and isinstance(x.targets[0], ast.Attribute):
+            stores.append((al.canon(x.targets[0]), al.canon(x.value)))
+    want = ("%s.start" % SECOND, "Point(%s.end)" % FIRST)
+    ctx.ob("R01.6", "Path._validate_connection", want in stores or ("%s.start" % SECOND, "copy(%s.end)" % FIRST) in stores, "; ".join("%s=%s" % p_ for p_ in stores)[:200], vc.lineno,
            "the later segment's start becomes (a copy of) the earlier segment's end")
     vcl = ctx.fn("Path._validate_close", "R01.6")
-    loops = [s for s in vcl.body if isinstance(s, ast.For)]
-    ok = len(loops) == 1 and "range(index, -1, -1)" in ast.unparse(loops[0].iter) and "isinstance(segment, Move)" in ast.unparse(loops[0])
+    loops = [x for x in ast.walk(vcl) if isinstance(x, ast.For)]
+    ok = False
+    if len(loops) == 1 and isinstance(loops[0].iter, ast.Call):
+        it = loops[0].iter
+        back = False
+        if call_name(it) == "range" and len(it.args) == 3:
+            step = it.args[2]
+            back = isinstance(step, ast.UnaryOp) and isinstance(step.op, ast.USub) and isinstance(step.operand, ast.Constant) and step.operand.value == 1 \
+                and isinstance(it.args[0], ast.Name) and it.args[0].id == vcl.args.args[1].arg
+        if call_name(it) == "reversed":
+            back = True
+        hit = any(isinstance(c, ast.Call) and call_name(c) == "isinstance" and len(c.args) == 2 and isinstance(c.args[1], ast.Name) and c.args[1].id == "Move" for c in ast.walk(loops[0]))
+        leaves = any(isinstance(n, (ast.Return, ast.Break)) for n in ast.walk(loops[0]))
+        ok = back and hit and leaves
     ctx.ob("R01.6", "Path._validate_close", ok, "", vcl.lineno, "a close is linked to the nearest preceding move")
     for bname in SEGCLASS:
         fn = ctx.fn("Path.%s" % bname, "R01.6")
